@@ -49,6 +49,9 @@ def cases(draw):
     op = {"op": kind}
     if kind == "update_list":
         op["keys"] = draw(st.lists(key, min_size=0, max_size=12))
+        if op["keys"] and draw(st.integers(0, 5)) == 0 and not log:  # hundreds of entries in one call
+            n = draw(st.sampled_from([255, 256, 257, 300, 1024]))
+            op["keys"] = [op["keys"][t % len(op["keys"])] for t in range(n)]
     elif kind == "update_dict":
         op["items"] = [[k, draw(val)] for k in draw(st.lists(key, min_size=0, max_size=5, unique=True))]
         if log:
